@@ -127,6 +127,12 @@ def decorate(model, draw):
         if not any(o.domain == "verif.unused" for o in m.opset_import):
             m.opset_import.append(helper.make_opsetid("verif.unused", 1))
         kinds.append("unused_function")
+    for k, f in enumerate(m.functions):
+        if chance(4) and len(f.input):
+            # a dead node inside a model-local function (cleaned by remove_unused_nodes / optimize in both entry forms alike)
+            f.node.append(helper.make_node("Identity", [f.input[0]], [f"verif_dead_{k}"]))
+            if "function_dead_node" not in kinds:
+                kinds.append("function_dead_node")
     for f in m.functions:
         if chance(5):
             f.doc_string = f.doc_string or "function doc"
